@@ -267,7 +267,7 @@ def dataset_problems(d):
     if len(types) > 1:
         probs.append(("C16/heterogeneous-element-types", f"{types}"))
     elif types:
-        all_intlike = all(isinstance(v, int) or (isinstance(v, str) and v.isdigit()) for _, v in uni)
+        all_intlike = all(ref.int_like(v) for _, v in uni)
         t = next(iter(types))
         if all_intlike and t is not int:
             probs.append(("C16/int-like-names-kept-as-str", f"{sorted(map(repr, uni))[:6]}"))
